@@ -233,8 +233,15 @@ func (p Prop) Run(ci interface{}, focus *core.Violation) *core.Outcome {
 	c := ci.(*Case)
 	out := &core.Outcome{}
 	seen := map[string]bool{}
+	baseHash := ""
 	note := func(x *execInfo, extra string, nontrivial bool) string {
 		h := core.Hash(append(x.sr.TraceHashParts(), extra)...)
+		if baseHash != "" {
+			// cancelled runs: which statements ran before the cancellation point may
+			// differ between executions (gorm iterates maps); identify the run by
+			// the tagged trace, the point and the outcome
+			h = ops.FaultedHash(baseHash, extra, x.sr)
+		}
 		if nontrivial && !seen[h] {
 			seen[h] = true
 			out.Hashes = append(out.Hashes, h)
@@ -256,6 +263,7 @@ func (p Prop) Run(ci interface{}, focus *core.Violation) *core.Outcome {
 		}
 	}
 	h0 := note(base, "tagged", nCarry > 0)
+	baseHash = h0
 	out.TraceHash = h0
 	out.Count("driver_calls_checked", int64(nCarry))
 	out.Count("pool_calls_checked", int64(len(base.pool)))
